@@ -1,9 +1,10 @@
 package main
 
 import (
+	"fmt"
 	"go/types"
 	"sort"
-	"fmt"
+	"strings"
 
 	"golang.org/x/tools/go/ssa"
 )
@@ -19,6 +20,8 @@ func runC05(c *Ctx) {
 	borrow(c, "O8", "C06", "O10", "cache", "a victim wrongly reported as protected is never displaced")
 	borrow(c, "O11", "C14", "O1", "addTaskIndex <-> deleteTaskIndex", "the victim filters drop a workload whose cached active-allocated count is 0: a count that drifts after an undone simulation hides a legal victim from the later actions of the cycle")
 	borrow(c, "O12", "C08", "O6", "given to the queue is in bytes", "a limit enforced a million times too low refuses every workload of the queue although capacity is free")
+	runC05FilterNodes(c)
+	borrow(c, "O16", "C07", "O7", "", "a queue limit taken from another resource (the memory limit from the CPU limit) refuses workloads that fit every configured limit: they stay pending although the cluster and the queue have room")
 	borrow(c, "O14", "C08", "O13", "usage is accumulated for the allocated statuses", "a queue that is charged with its terminating pods looks fuller than it is: workloads that fit within its limit are refused and reclaimers within quota are turned away")
 	borrow(c, "O9", "C01", "O7", "BindPod failure -> unallocate", "resources of a pod whose bind failed stay consumed in the session and a later job that fits is left pending")
 	p, fx := c.P, c.Fx
@@ -209,7 +212,9 @@ func runC05(c *Ctx) {
 				continue
 			}
 			if k, isC := ret.Results[0].(*ssa.Const); isC {
-				_, nf := hasFact(fx.FactsAt(ret), func(f Fact) bool { return !f.Pol && f.T.Op == "extract" && f.T.Name == "1" && f.T.Args[0].Op == "lookup" })
+				_, nf := hasFact(fx.FactsAt(ret), func(f Fact) bool {
+					return !f.Pol && f.T.Op == "extract" && f.T.Name == "1" && f.T.Args[0].Op == "lookup"
+				})
 				if nf {
 					sawNotFound = true
 					c.Check(k.Value != nil && k.Value.ExactString() == "true", "O6", "RET", funcKey(ie)+": nothing failed yet ⇒ easier", ret.Pos(), "return true when no representative exists", "a job is skipped although no job of its signature failed before")
@@ -236,7 +241,9 @@ func runC05(c *Ctx) {
 			fs := fx.pathFactsTo(in.Block(), 2)
 			okAll := true
 			for _, pf := range fs {
-				_, nf := hasFact(pf, func(f Fact) bool { return !f.Pol && f.T.Op == "extract" && f.T.Name == "1" && f.T.Args[0].Op == "lookup" })
+				_, nf := hasFact(pf, func(f Fact) bool {
+					return !f.Pol && f.T.Op == "extract" && f.T.Name == "1" && f.T.Args[0].Op == "lookup"
+				})
 				_, sm := hasFact(pf, func(f Fact) bool { return f.Pol && isCallNamed(f.T, "isPodGroupFootprintSmaller") })
 				if !nf && !sm {
 					okAll = false
@@ -314,7 +321,9 @@ func runC05(c *Ctx) {
 			okNil := false
 			for _, pf := range fx.pathFactsTo(b, 2) {
 				_, exhausted := hasFact(pf, func(f Fact) bool {
-					return factNilTerm(f, true, func(t *Term) bool { return t.Op == "phi" || isCallNamed(t, "GetValidScenario") || isCallNamed(t, "GetNextScenario") })
+					return factNilTerm(f, true, func(t *Term) bool {
+						return t.Op == "phi" || isCallNamed(t, "GetValidScenario") || isCallNamed(t, "GetNextScenario")
+					})
 				})
 				okNil = exhausted
 				if !okNil {
@@ -497,4 +506,29 @@ func runC05PerJobReset(c *Ctx) {
 			"the pre-job hook can return without wiping "+f+" completely ("+pathStr(path)+"): entries written for an earlier job (e.g. the scores of its root sub-group set, named \"\" in every job) are read by later jobs of the cycle, which then order — and in simulations lose — their candidate nodes by another job's preferences")
 	}
 	c.Floor("O13", "MUSTDEF per-job tables of the topology plugin", len(names), 1)
+}
+
+// runC05FilterNodes (O15): the accumulated-scenario filters decide which victim scenarios are simulated at all. The
+// topology-aware idle-GPU filter asks "would the GPUs freed by these victims satisfy the required topology level";
+// it must therefore know EVERY node of the session — a node without idle or releasing GPUs today is exactly where
+// victims free them. Built over the feasible-nodes subset it rejects every scenario whose victims sit on fully used
+// nodes before it is simulated, and a workload with a required level can neither preempt nor reclaim.
+func runC05FilterNodes(c *Ctx) {
+	n := 0
+	for _, fn := range c.P.FuncsIn("pkg/scheduler/actions/common/solvers") {
+		if isTestdataOrMock(fn) {
+			continue
+		}
+		for _, in := range instrsIn(fn, func(in ssa.Instruction) bool {
+			cc, ok := in.(ssa.CallInstruction)
+			return ok && calleeOf(cc) != nil && calleeOf(cc).Name() == "NewTopologyAwareIdleGpusFilter"
+		}) {
+			n++
+			args := in.(ssa.CallInstruction).Common().Args
+			t := termOf(args[len(args)-1])
+			c.Check(strings.HasSuffix(t.String(), "ClusterInfo.Nodes"), "O15", "PROV", funcKey(fn)+": the topology-aware idle-GPU filter is built over all nodes of the session", instrPos(in), t.String(),
+				"the topology-aware scenario filter is built over "+trunc(t.String(), 80)+" instead of the session's node map: nodes whose GPUs only become free through the victims are unknown to it, every scenario on fully used nodes is rejected before simulation, and a workload with a required topology level starves")
+		}
+	}
+	c.Floor("O15", "PROV topology-aware filter constructions", n, 1)
 }
